@@ -10,7 +10,9 @@ FIT_POS = {0: "panic status differs from the model (length checks, degree < 0)",
            3: "Go's own coefficients violate the normal equations: |term_j . W (y - X beta_go)| > 1e-9 * scale (exact arithmetic)",
            4: "coefficients differ from the exact minimiser beyond the conditioning-scaled tolerance",
            5: "an argument slice was modified",
-           6: "LinearLeastSquares on the monomial basis panicked"}
+           6: "LinearLeastSquares on the monomial basis panicked",
+           7: "HISTORY: parameters / Coefficients / F values read again after OTHER fits ran differ from the first reading "
+              "(the returned slice or the closure F shares storage with later calls)"}
 
 
 def _pairs(d):
@@ -49,8 +51,11 @@ def describe(line_ints, verdict, case_json):
         out["call"] = "fit.LOESS"
         if pos == 0:
             out["what"] = "panic status differs from the model (degree < 0, span <= 0)"
+        elif pos == 1 and d[:1] == [7]:
+            out["what"] = ("HISTORY: a LOESS query evaluated again after other fits / closures ran differs from its "
+                           "first evaluation (the closure keeps or shares state)")
         elif pos == 1:
-            out["what"] = "an argument slice was modified, or the closure is not repeatable"
+            out["what"] = "an argument slice was modified"
         elif pos >= 2:
             i = pos - 2
             out["what"] = "LOESS value at query %d differs from the model for every admissible window decision" % i
